@@ -1,18 +1,22 @@
 #!/bin/sh
-# tools/regress_seeded.sh [ids...]   run every seeded change (or the named ones) against its property's quick check
-# and say whether it is still caught. Edits /repo while it runs; nothing else may use /repo meanwhile.
+# tools/regress_seeded.sh [ids...]   run every seeded change (or the named ones) against the check that is meant to
+# catch it (meta.json: caught_by[0]) and say whether it is still caught. Changes marked obsolete in meta.json (the
+# property holds with them since a later fix) must leave the check silent. Edits /repo while it runs; nothing else
+# may use /repo meanwhile.
 cd /verif || exit 2
 LIST=${*:-$(ls seeded)}
-missed=0
+bad=0
 for d in $LIST; do
-    p=${d%-*}
+    p=$(python3 -c "import json;m=json.load(open('seeded/$d/meta.json'));print((m.get('caught_by') or m.get('caught_by_at_the_time') or ['${d%-*}'])[0])")
+    obsolete=$(python3 -c "import json;m=json.load(open('seeded/$d/meta.json'));print('yes' if m.get('obsolete') else 'no')")
     if [ -n "$(git -C /repo status --porcelain --untracked-files=no)" ]; then echo "/repo not clean"; exit 2; fi
-    git -C /repo apply "seeded/$d/patch.diff" 2>/dev/null || { echo "$d: PATCH DOES NOT APPLY"; missed=$((missed+1)); continue; }
+    git -C /repo apply "/verif/seeded/$d/patch.diff" 2>/dev/null || { echo "$d: PATCH DOES NOT APPLY"; bad=$((bad+1)); continue; }
     out=$(./check "$p" 2>&1); code=$?
     git -C /repo checkout -- .
     sig=$(echo "$out" | grep -E "^  \[" | head -1 | cut -c1-90)
-    if [ $code -eq 1 ]; then echo "$d: caught   $sig"; else echo "$d: MISSED (exit $code)"; missed=$((missed+1)); fi
+    if [ "$obsolete" = yes ]; then
+        if [ $code -eq 0 ]; then echo "$d: obsolete, $p silent as it should be"; else echo "$d: obsolete but $p exit $code $sig"; bad=$((bad+1)); fi
+    elif [ $code -eq 1 ]; then echo "$d: caught by $p   $sig"; else echo "$d: MISSED by $p (exit $code)"; bad=$((bad+1)); fi
 done
-echo "missed: $missed"
-# leave the evidence of the unchanged tree behind
-exit $missed
+echo "problems: $bad"
+exit $bad
